@@ -206,9 +206,47 @@ func scenarioC02(r *Run) {
 			}
 		}
 	}
+	// every position whose pre-conditions hold must have been reached
+	// (recording verifiers accept without looking, so nothing stops early)
+	if rv, e := RefVerdict(spec.Kind, received, keysOf(spec), external, override); e == nil && verr == nil || e == nil {
+		for i, s := range spies {
+			if i >= len(rv) {
+				break
+			}
+			pre := rc.Payload() != nil && len(rv[i].SigBytes) > 0 && algRule(rv[i].ProtAlg, int64(s.Alg), external) == ""
+			// earlier positions must all be reachable too
+			for j := 0; j < i && pre; j++ {
+				pre = len(rv[j].SigBytes) > 0 && algRule(rv[j].ProtAlg, int64(spies[j].Alg), external) == ""
+			}
+			if pre && len(s.Calls) == 0 {
+				r.Check()
+				r.Fail("verifier-not-reached/"+spec.Kind.String(), "payload, signature and algorithm of signature %d are in order, yet its verifier was never called (Verify returned %v)\nwire: %s", i, verr, hexShort(received))
+				return
+			}
+		}
+	}
 	if compared == 0 {
 		r.Outcome("seam-not-reached")
 		return
+	}
+	// verifying the same decoded message a second time hands over the same bytes
+	{
+		sp2 := acceptingVerifiers(pm, keysOf(spec))
+		r.VerifyLib(rc, external, asVerifiers(sp2)...)
+		for i := range spies {
+			if len(spies[i].Calls) == 0 {
+				continue
+			}
+			r.Check()
+			if len(sp2[i].Calls) == 0 || !bytes.Equal(sp2[i].Calls[0].Content, spies[i].Calls[0].Content) {
+				got := []byte(nil)
+				if len(sp2[i].Calls) > 0 {
+					got = sp2[i].Calls[0].Content
+				}
+				r.Fail("second-verify-differs/"+spec.Kind.String(), "verifying the same decoded message twice: the second call hands verifier %d other content (or none)\n first: %s\nsecond: %s\nwire: %s", i, hexShort(spies[i].Calls[0].Content), hexShort(got), hexShort(received))
+				return
+			}
+		}
 	}
 	r.Outcome("verify-seam-checked")
 	if pm.ProtBstr.Width > 0 && len(pm.ProtBstr.Data) < 24 || pm.ProtBstr.Width > 1 && len(pm.ProtBstr.Data) < 256 {
